@@ -312,7 +312,8 @@ CaseClass(cs, d) ==
     [] cs.kind = "raw"   -> "raw:" \o cs.x
                             \o (IF d.want.k = "ok" /\ d.want.c.form = "rest" THEN ":" \o TypeClass(d.want.c.type) ELSE "")
                             \o (IF d.text = "" THEN ":empty" ELSE IF Ch(d.text, 1) \in {"#", "|"} THEN ":nourl"
-                                ELSE IF StartsWith(d.text, "http:///") \/ StartsWith(d.text, "https:///") THEN ":noauthority" ELSE "")
+                                ELSE IF StartsWith(d.text, "http:///") \/ StartsWith(d.text, "https:///") THEN ":noauthority"
+                                ELSE IF EndsWith(d.text, "/_history/") THEN ":emptyversion" ELSE "")
     [] cs.kind = "pool"  -> "pool:" \o TypeClass(cs.type) \o "," \o TypeClass(cs.x)
     [] OTHER -> cs.kind
 
